@@ -141,10 +141,17 @@ type JWK struct {
 	Kid, Use string
 	Key      *Key
 	Private  bool
+	// Wrap: a STORAGE key (op.Key) whose Key() hands out a JWK instead of the raw
+	// public key: "jwk" a jose.JSONWebKey value, "pjwk" a pointer. InnerUse /
+	// InnerKid are that inner JWK's own members. For key selection the dynamic type
+	// of the material is then "anything else" (kty KOther); the use that counts is
+	// the one the storage declares (Use).
+	Wrap               string
+	InnerUse, InnerKid string
 }
 
 func (j JWK) Kty() string {
-	if j.Private {
+	if j.Private || j.Wrap != "" {
 		return "KOther"
 	}
 	return j.Key.Kty
@@ -157,6 +164,12 @@ func (j JWK) Coq() string {
 func (j JWK) Material() any {
 	if j.Private {
 		return j.Key.Priv
+	}
+	switch j.Wrap {
+	case "jwk":
+		return jose.JSONWebKey{Key: j.Key.Pub, KeyID: j.InnerKid, Use: j.InnerUse}
+	case "pjwk":
+		return &jose.JSONWebKey{Key: j.Key.Pub, KeyID: j.InnerKid, Use: j.InnerUse}
 	}
 	return j.Key.Pub
 }
